@@ -25,9 +25,18 @@ import (
 
 // ---------- alphabets ----------
 
+// palette holds the key strings of the running case: key number i (1..) is palette[i-1].
+var palette = defaultPalette
+
+var defaultPalette = []string{"k1", "k2", "k3"}
+
 func keyStr(k int) string {
 	if k == 0 {
 		return ""
+	}
+
+	if k <= len(palette) {
+		return palette[k-1]
 	}
 
 	return fmt.Sprintf("k%d", k)
@@ -73,7 +82,13 @@ func keyNum(s string) int {
 		return 0
 	}
 
-	if n, _ := fmt.Sscanf(s, "k%d", &k); n == 1 && keyStr(k) == s {
+	for i, p := range palette {
+		if p == s {
+			return i + 1
+		}
+	}
+
+	if n, _ := fmt.Sscanf(s, "k%d", &k); n == 1 && k > len(palette) && keyStr(k) == s {
 		return k
 	}
 
@@ -176,6 +191,8 @@ type Stack struct {
 type Case struct {
 	Stack Stack `json:"stack"`
 	Ops   []Op  `json:"ops"`
+	// Keys are the key strings behind the key numbers 1..3 (default k1, k2, k3).
+	Keys []string `json:"keys,omitempty"`
 }
 
 func (s Stack) String() string {
@@ -872,6 +889,12 @@ func sigOf(st Stack, ops []Op, i int, want, got Out, r *ref) string {
 		return "panic:" + top + ":" + o.Kind
 	}
 
+	if st.Base == "leveldb" && len(st.Wraps) == 0 && usesReservedNames() {
+		// LevelDB keeps its tag index and the store configuration as entries "TagMap" / "StoreConfig" of the same
+		// key space
+		return "leveldb:reserved-key-names"
+	}
+
 	if (o.Kind == "query" || o.Kind == "queryopt") && len(o.Q) == 1 && o.Q[0][1] == 0 && want.Kind == "query" && got.Kind == "query" &&
 		st.Base == "leveldb" && len(got.R) > len(want.R) {
 		// every expected entry is there; the extra ones are keys that exist but do not carry the tag name any more
@@ -907,6 +930,13 @@ func sigOf(st Stack, ops []Op, i int, want, got Out, r *ref) string {
 
 func runCase(kind string, c Case, tr *hx.Trace, withCoq bool) {
 	rec := &hx.Record{Kind: kind, Case: c}
+
+	palette = defaultPalette
+	if len(c.Keys) > 0 {
+		palette = c.Keys
+	}
+
+	defer func() { palette = defaultPalette }()
 
 	w, err := newWorld(c.Stack)
 	if err != nil {
@@ -954,15 +984,15 @@ func runCase(kind string, c Case, tr *hx.Trace, withCoq bool) {
 		}
 	}
 
-	if withCoq && c.Stack.modelled() {
-		rec.Coq = fmt.Sprintf("{| c_stack := %s; c_steps := [%s]; c_psteps := []; c_conj := %s; c_oracle := %s |}",
+	if withCoq && c.Stack.modelled() && !usesReservedNames() {
+		rec.Coq = fmt.Sprintf("{| c_stack := %s; c_steps := [%s]; c_psteps := []; c_keytags := []; c_conj := %s; c_oracle := %s |}",
 			c.Stack.coq(), strings.Join(steps, "; "), hx.CoqBool(c.Stack.supportsConj()), hx.CoqBool(oracleOK))
 	}
 
 	rec.Observed = outs
 	rec.Class = strings.Join(classParts, ",")
 	rec.Trivial = !nontrivial
-	rec.Dist = []string{"stack=" + c.Stack.String(), fmt.Sprintf("depth=%d", len(c.Stack.Wraps)), fmt.Sprintf("len=%d", len(c.Ops)/5*5)}
+	rec.Dist = []string{"keys=" + paletteName(c.Keys), "stack=" + c.Stack.String(), fmt.Sprintf("depth=%d", len(c.Stack.Wraps)), fmt.Sprintf("len=%d", len(c.Ops)/5*5)}
 
 	for _, o := range c.Ops {
 		rec.Dist = append(rec.Dist, "op="+o.Kind)
@@ -1125,7 +1155,7 @@ func randomCase(r *hx.Rng, st Stack, n int) Case {
 		ops = append(ops, randOp(r, st))
 	}
 
-	return Case{Stack: st, Ops: append(ops, probe(r)...)}
+	return Case{Stack: st, Ops: append(ops, probe(r)...), Keys: palettes[r.Intn(len(palettes))]}
 }
 
 func stacks(bases []string, maxDepth int, fmts []string) []Stack {
@@ -1237,9 +1267,10 @@ func main() {
 		}
 
 		var c struct {
-			Case  *Case `json:"case"`
-			Stack Stack `json:"stack"`
-			Ops   []Op  `json:"ops"`
+			Case  *Case    `json:"case"`
+			Stack Stack    `json:"stack"`
+			Ops   []Op     `json:"ops"`
+			Keys  []string `json:"keys"`
 		}
 
 		var pr struct {
@@ -1261,7 +1292,7 @@ func main() {
 
 		_ = json.Unmarshal(b, &c)
 		if c.Case == nil {
-			c.Case = &Case{Stack: c.Stack, Ops: c.Ops}
+			c.Case = &Case{Stack: c.Stack, Ops: c.Ops, Keys: c.Keys}
 		}
 
 		runCase("replay", *c.Case, tr, true)
@@ -1270,6 +1301,7 @@ func main() {
 	}
 
 	corpus(args.Extra, tr)
+	keyTagProbes(tr)
 
 	rng := hx.NewRng(args.Seed)
 	thorough := args.Tier == "thorough"
@@ -1331,6 +1363,14 @@ func main() {
 			r := rng.Fork(uint64(7_000_000 + i*1000 + j))
 			runPCase("provider", randPCase(r, st, 4+r.Intn(14)), tr)
 		}
+	}
+
+	// LevelDB with keys named like its own bookkeeping entries (known finding): direct oracle only
+	for j := 0; j < 4; j++ {
+		r := rng.Fork(uint64(8_000_000 + j))
+		c := randomCase(r, Stack{Base: "leveldb"}, 4+r.Intn(10))
+		c.Keys = reservedPalette
+		runCase("random-leveldb-reserved", c, tr, false)
 	}
 
 	for i, st := range ldbStacks {
